@@ -34,7 +34,6 @@ ASSUMPTIONS = [
     'MPI_Bcast delivers the root window to the other ranks (rank independence is OBSERVED on 1-3 ranks, not proved)',
     'the window is modelled by its live part base+pos..end: bytes before pos are never read again by the C code',
     'allocation failure is modelled by a size limit mm (hypothesis hdr_req h <= mm in c04_valid)',
-    'hypothesis (dc_len d = hdr_len h) of c04_valid (bytes consumed = ncmpio_hdr_len_NC) is checked on every generated file by the extracted predicate, not proved in general',
     'data reads (ncmpi_get_var*) are covered by observation only; the theorems are about the header reader',
 ]
 CHECKER_CMD = ('coq_makefile -f _CoqProject -o Makefile && make -k -j16 Properties_C04.vo && '
